@@ -124,6 +124,74 @@ pub fn search(suite: &str, a: &[&str]) -> Option<String> {
             }
             format!("OK {}", got.len())
         }
+        // the construction API against struct literals: CornerRadiiBuilder (new, the 4 single-corner setters, all, top/right/
+        // bottom/left, build, From<&CornerRadii>), CornerRadii::new, RoundedRectangle::with_equal_corners / new
+        "p_rr_builder" => {
+            use embedded_graphics::primitives::CornerRadiiBuilder;
+            let r = rr(a);
+            let c = r.corners;
+            let z = Size::zero();
+            let lit = |tl: Size, tr: Size, br: Size, bl: Size| CornerRadii { top_left: tl, top_right: tr, bottom_right: br, bottom_left: bl };
+            if CornerRadiiBuilder::new().build() != lit(z, z, z, z) {
+                return Some("FAIL CornerRadiiBuilder::new().build() is not all zero".into());
+            }
+            // every single-corner setter, alone (on a zero builder) and chained in two different orders
+            let singles: [(&str, CornerRadii, CornerRadii); 4] = [
+                ("top_left", CornerRadiiBuilder::new().top_left(c.top_left).build(), lit(c.top_left, z, z, z)),
+                ("top_right", CornerRadiiBuilder::new().top_right(c.top_right).build(), lit(z, c.top_right, z, z)),
+                ("bottom_right", CornerRadiiBuilder::new().bottom_right(c.bottom_right).build(), lit(z, z, c.bottom_right, z)),
+                ("bottom_left", CornerRadiiBuilder::new().bottom_left(c.bottom_left).build(), lit(z, z, z, c.bottom_left)),
+            ];
+            for (name, got, want) in singles.iter() {
+                if got != want {
+                    return Some(format!("FAIL CornerRadiiBuilder::{}: {:?} expected {:?}", name, got, want));
+                }
+            }
+            let chained = CornerRadiiBuilder::new().top_left(c.top_left).top_right(c.top_right).bottom_right(c.bottom_right).bottom_left(c.bottom_left).build();
+            let chained2 = CornerRadiiBuilder::new().bottom_left(c.bottom_left).bottom_right(c.bottom_right).top_right(c.top_right).top_left(c.top_left).build();
+            if chained != c || chained2 != c {
+                return Some(format!("FAIL CornerRadiiBuilder four single-corner setters chained: {:?} / {:?} expected {:?}", chained, chained2, c));
+            }
+            // a single-corner setter on a full builder changes that corner only
+            let q = Size::new(c.top_left.width.wrapping_add(7), c.bottom_right.height.wrapping_add(3));
+            let base = CornerRadiiBuilder::from(&c);
+            for (name, got, want) in [
+                ("top_left", base.top_left(q).build(), lit(q, c.top_right, c.bottom_right, c.bottom_left)),
+                ("top_right", base.top_right(q).build(), lit(c.top_left, q, c.bottom_right, c.bottom_left)),
+                ("bottom_right", base.bottom_right(q).build(), lit(c.top_left, c.top_right, q, c.bottom_left)),
+                ("bottom_left", base.bottom_left(q).build(), lit(c.top_left, c.top_right, c.bottom_right, q)),
+                // the side setters: which two corners each one sets
+                ("top", base.top(q).build(), lit(q, q, c.bottom_right, c.bottom_left)),
+                ("right", base.right(q).build(), lit(c.top_left, q, q, c.bottom_left)),
+                ("bottom", base.bottom(q).build(), lit(c.top_left, c.top_right, q, q)),
+                ("left", base.left(q).build(), lit(q, c.top_right, c.bottom_right, q)),
+                ("all", base.all(q).build(), lit(q, q, q, q)),
+            ] {
+                if got != want {
+                    return Some(format!("FAIL CornerRadiiBuilder::{} on a full builder: {:?} expected {:?}", name, got, want));
+                }
+            }
+            let t = c.top_left;
+            if CornerRadiiBuilder::new().all(t).build() != CornerRadii::new(t) || CornerRadii::new(t) != lit(t, t, t, t) {
+                return Some(format!("FAIL CornerRadiiBuilder::all / CornerRadii::new({:?}): {:?} / {:?}", t, CornerRadiiBuilder::new().all(t).build(), CornerRadii::new(t)));
+            }
+            if CornerRadiiBuilder::from(&c).build() != c {
+                return Some(format!("FAIL CornerRadiiBuilder::from(&c).build(): {:?} expected {:?}", CornerRadiiBuilder::from(&c).build(), c));
+            }
+            let w = RoundedRectangle::with_equal_corners(r.rectangle, t);
+            if w != RoundedRectangle::new(r.rectangle, CornerRadii::new(t)) || w.rectangle != r.rectangle || w.corners != lit(t, t, t, t) {
+                return Some(format!("FAIL RoundedRectangle::with_equal_corners: {}", srr(&w)));
+            }
+            let n = RoundedRectangle::new(r.rectangle, chained);
+            if n.rectangle != r.rectangle || n.corners != c || n != r {
+                return Some(format!("FAIL RoundedRectangle::new: {}", srr(&n)));
+            }
+            // the built radii behave like the literal ones
+            if !n.points().take(200).eq(r.points().take(200)) {
+                return Some("FAIL points() of the builder-made shape differ".into());
+            }
+            "OK 1".to_string()
+        }
         // exhaustive sweep on the implementation: every combination of the 8 radius components over a value set,
         // for one size: points() == row-major filter of contains() over box+1, nothing outside the box,
         // confined radii fit, rows and columns contiguous.   p_rr_sweep w h k
